@@ -11,11 +11,11 @@ ARITH = ["Add"] * 4 + ["Sub"] * 3 + ["Mul"] * 3 + ["Div"] * 2 + ["Mod"] * 2 + ["
 CMPS = ["Lt", "Le", "Gt", "Ge", "Eq", "Ne"]
 
 BL = ("bytes", "string")
-PRIMS = ("int", "bool", "addr", "flag", "dec")
+PRIMS = ("int", "bool", "addr", "flag", "dec", "bytesm")
 DEC_ARITH = ["Add", "Add", "Sub", "Sub", "DMul", "DMul", "DDiv", "DDiv", "Mod"]
 PRINTABLE = b"abcdefghijklmnopqrstuvwxyzABCDEFGHIJKLMNOPQRSTUVWXYZ0123456789 _-+*/.,:;!?()[]{}<>=#@%&^~|"
 
-ALL_FEATURES = {"probes", "maps", "reasons", "bytes", "strings", "shifts", "pow", "defaults", "ctor", "flags", "decimals", "convert", "ifexp", "minmax", "bitops", "internal", "loops", "arrays", "dynarrays", "structs",
+ALL_FEATURES = {"probes", "maps", "reasons", "bytes", "strings", "shifts", "pow", "defaults", "ctor", "flags", "decimals", "bytesm", "extcalls", "convert", "ifexp", "minmax", "bitops", "internal", "loops", "arrays", "dynarrays", "structs",
                 "transient", "sender", "value", "fordyn", "forin"}
 
 
@@ -28,6 +28,7 @@ class Ctx:
         self.loop_depth = 0
         self.iter_locked = set()   # storage/transient names being iterated (may not be modified)
         self.is_ctor = False
+        self.no_calls = 0          # > 0 while generating a range bound / iterator (no state-modifying calls allowed there)
 
 
 class Gen:
@@ -55,6 +56,8 @@ class Gen:
             return self.r.choice(self.flag_types)
         if getattr(self, "use_dec", False) and 0.8 < x <= 0.9:
             return DEC
+        if getattr(self, "bytesm_types", None) and 0.7 < x <= 0.8:
+            return self.r.choice(self.bytesm_types)
         if x < 0.2:
             return BOOL
         if x < 0.25 and "sender" in self.feat:
@@ -65,6 +68,9 @@ class Gen:
         r = self.r
         if t[0] == "flag":
             return r.randrange(0, 2 ** t[2]) if r.random() < 0.8 else r.choice([0, 2 ** t[2] - 1])
+        if t[0] == "bytesm":
+            top = 2 ** (8 * t[1])
+            return r.choice([0, 1, top - 1, top // 2, r.randrange(top), r.randrange(top)])
         if t[0] == "dec":
             lo, hi = int_bounds(t)
             x = r.random()
@@ -119,6 +125,8 @@ class Gen:
             if vt == t:
                 out.append(E("var", t, name=name, id=vid))
         for i, (name, vt) in enumerate(self.prog.sto):
+            if name.startswith("$"):
+                continue
             if vt == t and not (cx.is_ctor and name in self.prog.imm):
                 out.append(E("self", t, name=name, id=i))
         for i, (name, vt) in enumerate(self.prog.tra):
@@ -133,6 +141,8 @@ class Gen:
             if vt[0] in ("sarr", "darr", "struct"):
                 out.append(E("var", vt, name=name, id=vid))
         for i, (name, vt) in enumerate(self.prog.sto):
+            if name.startswith("$"):
+                continue
             if vt[0] in ("sarr", "darr", "struct", "map"):
                 out.append(E("self", vt, name=name, id=i))
         for i, (name, vt) in enumerate(self.prog.tra):
@@ -231,7 +241,7 @@ class Gen:
         return E("idx", t, a=base, i=self.index_expr(cx, scope, n_of(c[1].ty[1]), d, static=(c[1].ty[1])[0] == "sarr"))
 
     def callable_funs(self, cx, t, any_ret=False):
-        if "internal" not in self.feat or cx.is_ctor:
+        if "internal" not in self.feat or cx.is_ctor or cx.no_calls:
             return []
         out = []
         for i, f in enumerate(self.prog.ints):
@@ -269,10 +279,16 @@ class Gen:
                 opts += ["minmax"]
             if "shifts" in self.feat and t[1] == 256:
                 opts += ["shift"]
+            if self.ext_ok(cx) and t == U256:
+                opts += ["ext_add", "ext_get", "ext_echo_u"] + (["ext_len_b"] if self.bkind == "bytes" and self.bytes_leaves(cx, scope, 64) else [])
+            if self.ext_ok(cx) and t == ("int", 8, True):
+                opts += ["ext_echo_i8"] * 2
             if "pow" in self.feat:
                 opts += ["pow"]
             if getattr(self, "use_dec", False):
                 opts += ["fromdec"]
+            if not t[2] and any(bt[1] * 8 == t[1] for bt in getattr(self, "bytesm_types", [])):
+                opts += ["uint_from_bm"]
             if "convert" in self.feat:
                 opts += ["conv"] * 2
             if t == U256 and "dynarrays" in self.feat and any(c.ty[0] == "darr" for c in self.containers(cx, scope)):
@@ -287,6 +303,8 @@ class Gen:
                 opts += ["bcmp"]
             if getattr(self, "flag_types", None):
                 opts += ["flagin", "flagcmp"]
+            if getattr(self, "bytesm_types", None):
+                opts += ["bmcmp"]
             if "convert" in self.feat:
                 opts += ["conv"]
         elif t == ADDR:
@@ -294,6 +312,8 @@ class Gen:
                 opts += ["sender"] * 2
         elif t[0] == "flag":
             opts += ["flagbit"] * 3 + ["flagnot"]
+        elif t[0] == "bytesm":
+            opts += ["bm_from_uint"]
         elif t[0] == "dec":
             opts += ["decbin"] * 5 + ["neg", "todec"] + (["minmax"] if "minmax" in self.feat else [])
         if "ifexp" in self.feat and t[0] in ("int", "bool"):
@@ -324,6 +344,16 @@ class Gen:
         if k == "neg":
             a = self.nonlit(cx, scope, t, d - 1)
             return None if a is None else E("neg", t, a=a)
+        if k == "ext_add":
+            return E("ext", U256, fn="add", args=[self.expr(cx, scope, U256, d - 1), self.expr(cx, scope, U256, d - 1)])
+        if k == "ext_get":
+            return E("ext", U256, fn="get", args=[], hid=self.hid)
+        if k == "ext_echo_u":
+            return E("ext", U256, fn="echo_u", args=[self.expr(cx, scope, U256, d - 1)])
+        if k == "ext_echo_i8":
+            return E("ext", t, fn="echo_i8", args=[self.expr(cx, scope, t, d - 1)])
+        if k == "ext_len_b":
+            return E("ext", U256, fn="len_b", args=[self.bytes_expr(cx, scope, 64, 1)])
         if k == "shift":
             a = self.nonlit(cx, scope, t, d - 1)
             if a is None:
@@ -376,6 +406,22 @@ class Gen:
             if r.random() < 0.3:
                 a, b = b, a
             return E("cmp", BOOL, op=op, a=a, b=b)
+        if k == "bm_from_uint":
+            a = self.nonlit(cx, scope, ("int", 8 * t[1], False), d - 1)
+            return None if a is None else E("conv", t, a=a)
+        if k == "uint_from_bm":
+            bt = [b_ for b_ in self.bytesm_types if b_[1] * 8 == t[1]][0]
+            a = self.nonlit(cx, scope, bt, d - 1)
+            return None if a is None else E("conv", t, a=a)
+        if k == "bmcmp":
+            bt = r.choice(self.bytesm_types)
+            a = self.nonlit(cx, scope, bt, d - 1)
+            if a is None:
+                return None
+            b = self.expr(cx, scope, bt, d - 1)
+            if r.random() < 0.4:
+                a, b = b, a
+            return E("cmp", BOOL, op=r.choice(["Eq", "Ne"]), a=a, b=b)
         if k == "decbin":
             op = r.choice(DEC_ARITH)
             a = self.nonlit(cx, scope, t, d - 1)
@@ -471,6 +517,8 @@ class Gen:
             if vt[0] == self.bkind and vt[1] <= n:
                 out.append(E("var", vt, name=name, id=vid))
         for i, (name, vt) in enumerate(self.prog.sto):
+            if name.startswith("$"):
+                continue
             if vt[0] == self.bkind and vt[1] <= n:
                 out.append(E("self", vt, name=name, id=i))
         for i, (name, vt) in enumerate(self.prog.tra):
@@ -492,6 +540,8 @@ class Gen:
               and f.ret[0] == self.bkind and f.ret[1] <= n and not (cx.iter_locked & self.writes.get(i, set()))]
         if fs and "internal" in self.feat:
             opts += ["call"] * 2
+        if n >= 64 and self.bkind == "bytes" and self.ext_ok(cx) and d > 0:
+            opts += ["echo_b"] * 2
         if not opts:
             return None if nonlit else self.bytes_lit(n)
         k = r.choice(opts)
@@ -499,6 +549,8 @@ class Gen:
             return r.choice(leaves)
         if k == "lit":
             return self.bytes_lit(n)
+        if k == "echo_b":
+            return E("ext", ("bytes", 64), fn="echo_b", args=[self.bytes_expr(cx, scope, 64, d - 1)])
         if k == "call":
             return self.call_expr(cx, scope, r.choice(fs), d)
         if k == "concat":
@@ -573,6 +625,8 @@ class Gen:
         cands = [c for c in self.containers(cx, scope) if c.ty == t]
         fs = self.callable_funs(cx, t)
         x = r.random()
+        if t == ("darr", U256, 4) and self.ext_ok(cx) and x < 0.25 and d > 0:
+            return E("ext", t, fn="echo_d", args=[self.composite_expr(cx, scope, t, d - 1)])
         if cands and x < 0.4:
             return r.choice(cands)
         if fs and x < 0.55:
@@ -604,6 +658,8 @@ class Gen:
             if m and pred(vt):
                 out.append((("loc", name, vid), [], vt))
         for i, (name, vt) in enumerate(self.prog.sto):
+            if name.startswith("$"):
+                continue
             if pred(vt) and name not in cx.iter_locked and name not in self.prog.imm:
                 out.append((("sto", name, i), [], vt))
         for i, (name, vt) in enumerate(self.prog.tra):
@@ -619,6 +675,8 @@ class Gen:
             if m:
                 roots.append((("loc", name, vid), vt))
         for i, (name, vt) in enumerate(self.prog.sto):
+            if name.startswith("$"):
+                continue
             if name not in cx.iter_locked and name not in self.prog.imm:
                 roots.append((("sto", name, i), vt))
         for i, (name, vt) in enumerate(self.prog.tra):
@@ -660,6 +718,8 @@ class Gen:
         if "dynarrays" in self.feat and any(t[0] == "darr" or (t[0] == "struct" and any(ft[0] == "darr" for _, ft in t[2]))
                                             for t in self.comp_types):
             kinds += ["append"] * 3 + ["pop"] * 2
+        if self.ext_ok(cx):
+            kinds += ["extstore"] * 2 + ["extfail"]
         if last and cx.loop_depth > 0:
             kinds += ["brk"] * 6
         if last and d > 0 and not cx.is_ctor:
@@ -668,6 +728,16 @@ class Gen:
             kinds = [k_ for k_ in kinds if k_ not in ("log", "idiom", "copyidiom")]
         k = r.choice(kinds)
         ed = 2 if r.random() < 0.7 else 3
+        if k == "extstore":
+            return [S("extstmt", fn="store", args=[self.expr(cx, scope, U256, ed)], hid=self.hid, evid=self.hev)]
+        if k == "extfail":
+            c = self.nonlit(cx, scope, BOOL, 1)
+            if c is None:
+                return []
+            from vlib.c01_exthelper import FAIL_REASON
+            if FAIL_REASON not in self.prog.reasons:
+                self.prog.reasons.append(FAIL_REASON)
+            return [S("if", c=c, th=[S("extstmt", fn="fail", args=[], rid=self.prog.reasons.index(FAIL_REASON))], el=[])]
         if k == "idiom":
             out = self.idiom(cx, scope, d)
             if out:
@@ -721,9 +791,10 @@ class Gen:
                 return [S("assert", e=c, reason=self.prog.reasons[rid], rid=rid)]
             return [S("assert", e=c)]
         if k == "log":
-            if not self.prog.events:
+            own = [j for j, (en, _f) in enumerate(self.prog.events) if not en.startswith("$")]
+            if not own:
                 return []
-            i = r.randrange(len(self.prog.events))
+            i = r.choice(own)
             name, fields = self.prog.events[i]
             return [S("log", name=name, id=i, fields=[fn for fn, _ in fields],
                       args=[self.expr(cx, scope, ft, ed) for _, ft in fields])]
@@ -830,6 +901,9 @@ class Gen:
         outer_scope[:] = scope
         return out
 
+    def ext_ok(self, cx):
+        return getattr(self, "use_ext", False) and not cx.is_ctor and not cx.no_calls
+
     def leaf_path(self, cx, scope, t, d):
         """a path from a composite type t down to an integer/bool leaf: (path, leaf type) or None"""
         r = self.r
@@ -876,7 +950,7 @@ class Gen:
             e = E("conv", U256, a=e) if (not t[2]) else E("conv", U256, a=E("bin", t, op="BAnd", a=e, b=E("const", t, v=int_bounds(t)[1])))
         elif t == BOOL:
             e = E("conv", U256, a=e)
-        elif t == ADDR or t[0] in ("dec", "flag"):
+        elif t == ADDR or t[0] in ("dec", "flag", "bytesm"):
             return S("pass")
         return S("log", name="Ev0", id=0, fields=["x"], args=[e])
 
@@ -981,7 +1055,11 @@ class Gen:
             inner.append((name, vid, vt, False))
             if "fordyn" in self.feat and x < 0.45:
                 bound = r.randrange(1, 6)
-                e = self.nonlit(cx, scope, vt, 1)
+                cx.no_calls += 1
+                try:
+                    e = self.nonlit(cx, scope, vt, 1)
+                finally:
+                    cx.no_calls -= 1
                 if e is not None:
                     if r.random() < 0.7:
                         e = E("bin", vt, op="Mod", a=e, b=E("const", vt, v=bound + 1))
@@ -1463,6 +1541,7 @@ class Gen:
         self.writes = {}
         self.comp_types = []
         self.use_dec = "decimals" in self.feat and r.random() < 0.25
+        self.bytesm_types = [("bytesm", r.choice([1, 4, 8, 20, 31, 32]))] if ("bytesm" in self.feat and r.random() < 0.25) else []
         self.flag_types = []
         if "flags" in self.feat and r.random() < 0.3:
             self.flag_types = [("flag", "Fl0", r.choice([1, 2, 3, 8, 16]))]
@@ -1523,12 +1602,21 @@ class Gen:
                 t = r.choice(self.comp_types) if (self.comp_types and r.random() < 0.3) else self.prim_type()
                 p.tra.append((f"t{i}", t))
         if "ctor" in self.feat and r.random() < 0.4:
-            prims = [name for name, t in p.sto if t[0] in PRIMS]
+            prims = [name for name, t in p.sto if t[0] in PRIMS and not name.startswith("$")]
             r.shuffle(prims)
             p.imm = set(prims[:r.randrange(0, 3)])
             want_ctor = True
         else:
             want_ctor = False
+        self.use_ext = "extcalls" in self.feat and r.random() < 0.3
+        if self.use_ext:
+            p.uses_ext = True
+            self.hid = len(p.sto)
+            p.sto.append(("$hstored", U256))           # the scripted callee's state word (hidden from the source text)
+            self.hev = len(p.events)
+            p.events.append(("$Called", [("sender", ADDR), ("x", U256)]))
+            if ("darr", U256, 4) not in self.comp_types and "dynarrays" in self.feat and r.random() < 0.5:
+                self.comp_types.append(("darr", U256, 4))
         nint = r.randrange(0, 4) if "internal" in self.feat else 0
         for i in range(nint):
             f = self.function(i, False)
@@ -1563,6 +1651,11 @@ class Gen:
         if t[0] == "bool":
             x = r.random()
             return 2 if x < 0.03 else int(x < 0.5)
+        if t[0] == "bytesm":
+            top = 2 ** (8 * t[1])
+            if t[1] < 32 and r.random() < 0.06:
+                return ("raw", (r.randrange(top) << (8 * (32 - t[1]))) | 1)      # dirty low byte
+            return r.choice([0, 1, top - 1, r.randrange(top)])
         if t[0] == "flag":
             return r.randrange(0, 2 ** t[2]) if r.random() > 0.06 else r.choice([2 ** t[2], 2 ** 255])
         if t[0] == "addr":
@@ -1597,6 +1690,8 @@ class Gen:
                 return w % 2 ** 160
             if t[0] == "flag":
                 return w % 2 ** t[2]
+            if t[0] == "bytesm":
+                return w[1] >> (8 * (32 - t[1])) if isinstance(w, tuple) else w
             lo, hi = int_bounds(t)
             if t[2] and w >= 2 ** 255:
                 w -= 2 ** 256
